@@ -528,3 +528,6 @@ def _f25_not_executed_child_hides_error(case, detail, info):
 
 KNOWN_PREDICATES = {"scenario_skipped_with_other_steps": _f2_scenario_skipped,
                     "not_executed_child_before_error": _f25_not_executed_child_hides_error}
+
+
+RULE = RULE + " " + ('Auto-retry patches outlines as a whole or row by row; hooks may read element statuses while the run is in progress (reading changes nothing).')
